@@ -812,3 +812,9 @@ package raft
 //@ loop 2 invariant r.wf() && fresh(r.remotes) && fresh(r.nonVotings)
 //@ loop 3 invariant r.witnesses != nil && fresh(r.witnesses) && (forall k uint64 :: (k in r.witnesses) == visited(k)) && (forall k int :: visited(k) ==> k in ss.Membership.Witnesses)
 //@ loop 3 invariant r.log != nil && r.log.valid() && r.log.lastIdx() < MaxUint64 - 1 && fresh(r.remotes) && fresh(r.nonVotings)
+
+// used by node.tick (C12): stepping the raft core's clocks touches no request table
+//@ func (p *Peer) Tick [C12]
+//@ trusted steps the raft core with a LocalTick message
+//@ func (p *Peer) QuiescedTick [C12]
+//@ trusted advances the raft core's quiesced tick
